@@ -134,6 +134,10 @@ class World:
         self.net = SimNetwork(self.loop, faults)
         self.clock = WallClock(self.loop, clock)
         _putil.time = self.clock.read
+        # seam for code that measures elapsed time (USM engine-time estimate): virtual monotonic clock
+        import puresnmp_plugins.security.usm as _usm
+        if hasattr(_usm, "monotonic"):
+            _usm.monotonic = self.loop.time
         self.agents: List[RefAgent] = []
         self.recorders: List[Recorder] = []
         try:
